@@ -731,6 +731,27 @@ def check_status(ck, s, tainted):
                   "xzdiff: `%s` decompresses operand $%s with $%s, the decompressor that was selected from the suffix of "
                   "the OTHER operand: a .gz/.bz2 file is then compared as raw compressed bytes" % (
                       " ".join(w.text() for w in c["words"]), ",".join(ops), p0[0]), key="STATUS:xzdiff:pair")
+    if s.name == "xzdiff":
+        # the "is this operand compressed" decision is written out three times (for $1, for $2 when $1 is compressed, for
+        # $2 when $1 is not): the three suffix lists are siblings and must be the same set of patterns
+        lists = []
+        for c, ctx in s.cmds:
+            if c["t"] != "case":
+                continue
+            for pats, body, ln in c["arms"]:
+                txt = [p_.text() if hasattr(p_, "text") else str(p_) for p_ in pats]
+                if "*[-.][gx]z" in txt and "-" in txt:
+                    lists.append((ln, frozenset(txt), c["word"].text()))
+        if len(lists) < 3:
+            raise AnalysisBroken("xzdiff: expected three suffix lists (case arms containing *[-.][gx]z), found %d" % len(lists))
+        ref = max(set(x[1] for x in lists), key=lambda fs: sum(1 for x in lists if x[1] == fs))
+        n += 1
+        odd = [x for x in lists if x[1] != ref]
+        ck.ob("C20-STATUS", "xzdiff:suffix-lists", not odd, s.where(odd[0][0]) if odd else s.rel,
+              "xzdiff: the %d lists of compressed-file suffixes are identical (%d patterns)" % (len(lists), len(ref)) if not odd else
+              "xzdiff: the suffix list tested on %s at line %d differs from its siblings (missing %s, extra %s): an operand with "
+              "that suffix is decompressed in one argument position and compared as raw bytes in the other" % (
+                  odd[0][2], odd[0][0], sorted(ref - odd[0][1]), sorted(odd[0][1] - ref)), key="STATUS:xzdiff:suffix-lists")
     if s.name == "xzgrep":
         # res only moves 1 -> 0 (match) or up to the largest error: every later store is guarded by a test of $res
         for (name, v, c, ctx) in s.assigns:
